@@ -345,7 +345,7 @@ def r19_closure_contract(sig, body):
 
 
 def r20_ptr_offset(sig, body):
-    """R20: `unsafe { P.offset(E as isize) }` -> `ip_offset(P, E)` (code addresses are modelled by offsets; the unit's ip_offset stub is P + E and demands no overflow)"""
+    """R20: `unsafe { P.offset(E as isize) }` -> `ip_offset(P, E)`, `unsafe { P.offset(-(E as isize)) }` -> `ip_offset_back(P, E)` (code addresses are modelled by offsets; the unit's stubs are P + E / P - E and demand no overflow / underflow)"""
     n = 0
     pos = 0
     while True:
@@ -356,6 +356,12 @@ def r20_ptr_offset(sig, body):
         cl = _match_paren(body, op)
         arg = body[op + 1:cl].strip()
         m2 = re.match(r'\s*\}', body[cl + 1:])
+        fn_name = 'ip_offset'
+        mneg = re.match(r'^-\s*\((.*)\)$', arg, re.S)
+        if mneg and _match_paren(arg, arg.index('(')) == len(arg) - 1:
+            # `p.offset(-(E as isize))`: backwards
+            arg = mneg.group(1).strip()
+            fn_name = 'ip_offset_back'
         ma = re.match(r'^(.*)\bas\s+isize$', arg, re.S)
         if not m2 or not ma:
             pos = pos + m.end()
@@ -363,7 +369,7 @@ def r20_ptr_offset(sig, body):
         e = ma.group(1).strip()
         if e.startswith('(') and _match_paren(e, 0) == len(e) - 1:
             e = e[1:-1].strip()
-        new = 'ip_offset(%s, %s)' % (m.group(1), e)
+        new = '%s(%s, %s)' % (fn_name, m.group(1), e)
         body = body[:pos + m.start()] + new + body[cl + 1 + m2.end():]
         pos = pos + m.start() + len(new)
         n += 1
